@@ -1,6 +1,7 @@
 /- tier-K lifts used by the bit-buffer proofs (KEEP_LAST, pad bytes, count widths) -/
 import FastQr.Props.C05Tables
-import FastQr.Finite.TablesMisc
+import FastQr.Finite.TablesKeepLast
+import FastQr.Finite.TablesPad
 import FastQr.Proofs.Lift
 import FastQr.Props.C05
 
